@@ -1066,8 +1066,12 @@ def _translate(tr, func, spec, assume_raises):
             fields.append(f"  acts : List {spec['action_type']}")
         out.append(f"structure {tr.name}.St where\n" + "\n".join(fields) + "\n  deriving DecidableEq, Repr\n")
     # a written place whose initial value is never looked at is not a parameter
+    import re
     for k, ln, typ in place_binders:
-        if tr.places[k][3] == "r" or k in tr.init_used:
+        # (an unused parameter would be harmless; the initial value is referenced iff its name occurs unprimed,
+        #  other than as a field name of the result record)
+        used = re.search(r"(?<![\w.'«])" + re.escape(ln) + r"(?![\w'»]| :=)", text) is not None
+        if tr.places[k][3] == "r" or k in tr.init_used or used:
             binders.append((ln, typ))
     sig = " ".join(f"({n} : {ty(t)})" for n, t in binders)
     out.append(f"def {tr.name} {sig} : {rtype} :=\n{ind(text)}\n")
